@@ -148,6 +148,20 @@ Proof.
   intros (_ & _ & Hf) Hin. destruct (Hf p d Hin) as [E R]. unfold disk_entry. rewrite E, R. reflexivity.
 Qed.
 
+(* the payload root is found from the root itself and (when the parent is not named like the payload: D33)
+   from its parent directory *)
+Lemma holds_find_root fs base t name path :
+  holds fs base t -> last base [] = name ->
+  path = base \/
+  (base = path ++ [name] /\ fs_exists fs path = true /\ last path [] <> name /\
+   exists es, fs_listdir fs path = Some es /\ In name es) ->
+  find_root (fs_exists fs) (fs_listdir fs) name path = Some base.
+Proof.
+  intros (Hex & _) Hl [->|(-> & He & Hn & es & Hls & Hin)].
+  - apply find_root_payload_root; assumption.
+  - apply (find_root_parent _ _ name path es); assumption.
+Qed.
+
 Definition tree_size (t : node) : nat := sum_nat (map (fun f => length (snd f)) (files_of [] t)).
 
 (* ========================================================================================== *)
@@ -504,6 +518,66 @@ Proof.
   cbv zeta in R. rewrite v1_recorded_size_plain in R. apply R. discriminate.
 Qed.
 
+(* --align: every entry of info["files"] is accounted for, the pad entries as zeros *)
+Theorem own_v1_aligned_verify o rootstr name pl t fs base path :
+  0 < pl -> wf_node t -> has_file t ->
+  find_root (fs_exists fs) (fs_listdir fs) name path = Some base -> holds fs base t ->
+  no_pad_files fs base ->
+  let n := v1_recorded_size true rootstr pl t in
+  recheck_model H1 H256 B fs (create_v1 H1 true o rootstr name pl t) path = Some (Z.of_nat n, n, n).
+Proof.
+  intros Hpl Hwf Hf Hroot Hh Hp.
+  apply (own_v1_verify true o rootstr name pl t fs base path Hpl Hwf Hf Hroot Hh). intros _. exact Hp.
+Qed.
+
+(* with --align the recorded size of a directory payload is every file rounded up to the piece length *)
+Lemma v1_recorded_size_aligned rootstr pl es :
+  v1_recorded_size true rootstr pl (Dir es) =
+  sum_nat (map (fun f => length (snd f) + neg_mod (length (snd f)) pl) (files_of [] (Dir es))).
+Proof.
+  unfold v1_recorded_size, v1_size.
+  rewrite <- (sum_nat_perm _ _ (Permutation_map _ (filelist_total_files rootstr (Dir es)))).
+  unfold v1_layout. induction (snd (filelist_total rootstr (Dir es))) as [|f fl IH]; [reflexivity|].
+  cbn [flat_map map]. rewrite map_app, sum_nat_app, IH. unfold aligned_layout. cbv zeta.
+  destruct (neg_mod (length (snd f)) pl =? 0) eqn:E.
+  - apply Nat.eqb_eq in E. unfold sum_nat in *. cbn [map li_len fst snd fold_right].
+    f_equal. f_equal. symmetry. exact E.
+  - unfold sum_nat in *. cbn [map li_len fst snd fold_right]. rewrite Nat.add_0_r. reflexivity.
+Qed.
+
+(* the two premises of C05_v1_intact, separately (directory payload, no --align): where the checker looks
+   and with which lengths; what the recorded string is once cut into digests *)
+Theorem own_v1_check_paths o rootstr name pl es base f :
+  let m := create_v1 H1 false o rootstr name pl (Dir es) in
+  let fl := snd (filelist_total rootstr (Dir es)) in
+  Permutation fl (files_of [] (Dir es)) /\
+  check_paths (info_of m) name base f =
+  Some (map (fun x => mk_fi (base ++ fst x) (Z.of_nat (length (snd x))) None) fl,
+        Z.of_nat (sum_nat (map (fun x => length (snd x)) fl))).
+Proof.
+  cbv zeta. set (m := create_v1 H1 false o rootstr name pl (Dir es)).
+  set (fl := snd (filelist_total rootstr (Dir es))).
+  destruct (create_v1_dir_files H1 o rootstr name pl es) as (Hp & Ef & El & _). cbv zeta in Hp, Ef, El.
+  fold m in Ef, El. fold fl in Hp, Ef. split; [exact Hp|].
+  pose proof (create_v1_no_meta_version false o rootstr name pl (Dir es)) as Ev. fold m in Ev.
+  pose proof (v1_items_ok false pl fl (filelist_dir_paths_nonempty rootstr es)) as Hok.
+  unfold v1_files_value in Hok.
+  rewrite (check_paths_v1_dir (info_of m) name base f _ _ El Ev Ef Hok), sum_lengths_layout.
+  unfold v1_layout. rewrite !map_map. reflexivity.
+Qed.
+
+Theorem own_v1_recorded_digests o rootstr name pl es :
+  0 < pl -> has_file (Dir es) ->
+  let m := create_v1 H1 false o rootstr name pl (Dir es) in
+  let fl := snd (filelist_total rootstr (Dir es)) in
+  exists pieces, lookup ck_pieces (info_of m) = Some (BStr pieces) /\
+    chunks SHA1_LEN pieces = map H1 (chunks pl (concat (map snd fl))).
+Proof.
+  intros Hpl Hf. cbv zeta. eexists. split.
+  - exact (create_v1_dir_pieces H1 o rootstr name pl es Hpl Hf).
+  - unfold SHA1_LEN. apply cut_digests; [lia|exact H1_len].
+Qed.
+
 End V1.
 
 (* a non-empty file somewhere: the size is positive, so matched = consumed > 0 *)
@@ -738,6 +812,27 @@ Qed.
 Lemma tree_size_sort_tree t : tree_size (sort_tree t) = tree_size t.
 Proof. unfold tree_size. apply sum_nat_perm, Permutation_map, files_of_sort_tree. Qed.
 
+(* the first premise of C05_v2_intact_bep52 (directory payload): walk_file_tree lists exactly the files of the
+   tree, in per-directory sorted order, each with its length and (unless empty) its BEP 52 root *)
+Theorem own_v2_check_paths o name es m base :
+  wf_node (Dir es) -> v2_capable_output H1 H256 B pl o name (Dir es) m ->
+  check_paths (info_of m) name base false =
+  Some (map (fi_of base) (files_of [] (sort_tree (Dir es))), Z.of_nat (tree_size (Dir es))).
+Proof.
+  intros Hwf Hm.
+  destruct (v2_capable_shape o name _ m Hwf Hm) as (_ & _ & _ & _ & Ev & Et & El).
+  unfold info_get in Ev, Et, El.
+  assert (Hwfs : wf_node (sort_tree (Dir es))) by (apply wf_sort_tree; exact Hwf).
+  cbn [sort_tree] in Hwfs.
+  rewrite (check_paths_v2_dir (info_of m) name base _ _ Hwfs El Ev).
+  - cbn [sort_tree]. f_equal. f_equal. rewrite <- tree_size_sort_tree.
+    unfold tree_size. cbn [sort_tree].
+    induction (files_of [] (Dir (sort_names (map (on_snd sort_tree) es)))) as [|f l IH]; [reflexivity|].
+    cbn [map]. change (sum_lengths (?a :: ?r)) with (fi_length a + sum_lengths r)%Z.
+    rewrite IH. cbn [fi_of fi_length]. unfold sum_nat. cbn [fold_right]. rewrite Nat2Z.inj_add. reflexivity.
+  - etransitivity; [exact Et|reflexivity].
+Qed.
+
 Theorem own_v2_verify o name t m fs base path :
   wf_node t -> v2_capable_output H1 H256 B pl o name t m -> no_layer_collision t ->
   find_root (fs_exists fs) (fs_listdir fs) name path = Some base -> holds fs base t ->
@@ -770,16 +865,7 @@ Proof.
           destruct Hfiles as [E R]. unfold disk_entry. rewrite E, R. reflexivity.
         * apply (Hlook [] d). left; reflexivity.
     - exists (map (fi_of base) files). split.
-      + rewrite Hisf. cbn [is_file].
-        assert (Hwfs : wf_node (sort_tree (Dir es))) by (apply wf_sort_tree; exact Hwf).
-        cbn [sort_tree] in Hwfs.
-        rewrite (check_paths_v2_dir (info_of m) name base _ _ Hwfs El Ev).
-        * unfold files. cbn [sort_tree]. f_equal. f_equal. rewrite <- tree_size_sort_tree.
-          unfold tree_size. cbn [sort_tree].
-          induction (files_of [] (Dir (sort_names (map (on_snd sort_tree) es)))) as [|f l IH]; [reflexivity|].
-          cbn [map]. change (sum_lengths (?a :: ?r)) with (fi_length a + sum_lengths r)%Z.
-          rewrite IH. cbn [fi_of fi_length]. unfold sum_nat. cbn [fold_right]. rewrite Nat2Z.inj_add. reflexivity.
-        * etransitivity; [exact Et|reflexivity].
+      + rewrite Hisf. cbn [is_file]. apply (own_v2_check_paths o name es m base Hwf Hm).
       + rewrite !map_map.
         apply (all_some_map_ext _ (fun f => v2_listed H256 B k pl (snd f) (Some (snd f)))).
         apply Forall_forall. intros [p d] Hf. unfold fi_of. cbn [fst snd]. apply hash_file_own.
@@ -800,8 +886,134 @@ Qed.
 
 End V2.
 
+(* the two pure-v2 creators and the two hybrid creators, separately *)
+Theorem own_v2_only_verify H1 H256 B (HB : 0 < B) k pl (Hpl : pl = B * 2 ^ k)
+  (H256_len : forall x, length (H256 x) = 32) o name t m fs base path :
+  wf_node t -> v2_output H1 H256 B pl o name t m -> no_layer_collision H256 B k pl t ->
+  find_root (fs_exists fs) (fs_listdir fs) name path = Some base -> holds fs base t ->
+  recheck_model H1 H256 B fs m path = Some (Z.of_nat (tree_size t), tree_size t, tree_size t).
+Proof.
+  intros Hwf Hm. apply (own_v2_verify H1 H256 B HB k pl Hpl H256_len o name t m fs base path Hwf).
+  left; exact Hm.
+Qed.
+
+Theorem own_hybrid_verify H1 H256 B (HB : 0 < B) k pl (Hpl : pl = B * 2 ^ k)
+  (H256_len : forall x, length (H256 x) = 32) o name t m fs base path :
+  wf_node t -> hybrid_output H1 H256 B pl o name t m -> no_layer_collision H256 B k pl t ->
+  find_root (fs_exists fs) (fs_listdir fs) name path = Some base -> holds fs base t ->
+  recheck_model H1 H256 B fs m path = Some (Z.of_nat (tree_size t), tree_size t, tree_size t).
+Proof.
+  intros Hwf Hm. apply (own_v2_verify H1 H256 B HB k pl Hpl H256_len o name t m fs base path Hwf).
+  right; exact Hm.
+Qed.
+
+(* --align and a payload that itself has a file at a pad path (.pad/<n>): the pad entry's path exists, so
+   FeedChecker hashes that file's bytes where the creator hashed zeros -- intact content, 50 %.  The guard
+   [no_pad_files] of own_v1_verify is exactly this case.  (Checked against the real code: a payload
+   {.pad/1 = "x", a = 16383 bytes}, piece length 16 KiB, align=True: Checker(...).results() = 50.0.) *)
+Module PadCollision.
+Import CreatorsExamples CreatorsProofs2Examples.
+Import String.StringSyntax.
+Definition pad_tree : node :=
+  Dir [ (bs ".pad", Dir [(bs "1", File (bs "x"))]); (bs "a", File (bs "AAA")) ].
+Definition pad_base : cpath := [bs "w"; bs "r"].
+Definition pad_name : bytes := bs "r".
+Lemma pad_tree_wf : wf_node pad_tree.
+Proof. apply wf_nodeb_sound. vm_compute. reflexivity. Qed.
+End PadCollision.
+
+Theorem aligned_pad_path_collision_refuted :
+  exists (H1 H256 : bytes -> bytes) (B : nat) o rootstr name pl t fs base,
+    (forall x, length (H1 x) = 20) /\ 0 < pl /\ wf_node t /\ has_file t /\ last base [] = name /\
+    holds fs base t /\
+    recheck_model H1 H256 B fs (create_v1 H1 true o rootstr name pl t) base = Some (8%Z, 4, 8).
+Proof.
+  exists CreatorsProofs2Examples.X1, CreatorsProofs2Examples.X256, 2, CreatorsExamples.ex_opts,
+    PadCollision.pad_name, PadCollision.pad_name, 4, PadCollision.pad_tree, (disk_of PadCollision.pad_base PadCollision.pad_tree),
+    PadCollision.pad_base.
+  split; [exact CreatorsProofs2Examples.X1_len|]. split; [lia|]. split; [exact PadCollision.pad_tree_wf|].
+  split; [vm_compute; discriminate|]. split; [reflexivity|].
+  split; [apply disk_of_holds, PadCollision.pad_tree_wf|]. vm_compute. reflexivity.
+Qed.
+
+(* ---------- examples: the theorems instantiated (toy hashes of the right lengths, B = 2, pl = 4) ---------- *)
+Module OwnMetafilesExamples.
+Import CreatorsExamples CreatorsProofsExamples CreatorsProofs2Examples.
+Import String.StringSyntax.
+
+Definition ex_base : cpath := [bs "w"; bs "r"].
+Definition ex_fs : fsys := disk_of ex_base ex_tree.
+
+Lemma ex_holds : holds ex_fs ex_base ex_tree.
+Proof. apply disk_of_holds, ex_tree_wf. Qed.
+
+Lemma ex_find_root : find_root (fs_exists ex_fs) (fs_listdir ex_fs) (bs "r") ex_base = Some ex_base.
+Proof. apply (holds_find_root ex_fs ex_base ex_tree); [exact ex_holds|reflexivity|left; reflexivity]. Qed.
+
+Lemma ex_has_file : has_file ex_tree.
+Proof. vm_compute. discriminate. Qed.
+
+Example ex_own_v1 :
+  recheck_model X1 X256 2 ex_fs (create_v1 X1 false ex_opts (bs "r") (bs "r") 4 ex_tree) ex_base =
+  Some (18%Z, 18, 18).
+Proof.
+  exact (own_v1_plain_verify X1 X256 2 X1_len ex_opts (bs "r") (bs "r") 4 ex_tree ex_fs ex_base ex_base
+           (Nat.lt_0_succ 3) ex_tree_wf ex_has_file ex_find_root ex_holds).
+Qed.
+
+Lemma ex_no_pads : no_pad_files ex_fs ex_base.
+Proof.
+  intros n. unfold ex_fs, disk_of. cbn [fs_exists]. rewrite tree_lookup_app. reflexivity.
+Qed.
+
+Example ex_own_v1_aligned :
+  recheck_model X1 X256 2 ex_fs (create_v1 X1 true ex_opts (bs "r") (bs "r") 4 ex_tree) ex_base =
+  Some (24%Z, 24, 24).
+Proof.
+  exact (own_v1_verify X1 X256 2 X1_len true ex_opts (bs "r") (bs "r") 4 ex_tree ex_fs ex_base ex_base
+           (Nat.lt_0_succ 3) ex_tree_wf ex_has_file ex_find_root ex_holds (fun _ => ex_no_pads)).
+Qed.
+
+(* two files larger than pl = 4 ("hello", "0123456789") with different roots *)
+Lemma ex_no_collision : no_layer_collision X256 2 1 4 ex_tree.
+Proof.
+  intros p1 d1 p2 d2 I1 I2. vm_compute in I1, I2.
+  destruct I1 as [I1|[I1|[I1|[I1|[]]]]]; injection I1 as <- <-;
+  destruct I2 as [I2|[I2|[I2|[I2|[]]]]]; injection I2 as <- <-;
+    intros L1 L2 R; try reflexivity; try (vm_compute in L1; lia); try (vm_compute in L2; lia);
+    vm_compute in R; discriminate R.
+Qed.
+
+Example ex_own_v2 :
+  recheck_model X1 X256 2 ex_fs (create_v2_class X256 2 ex_opts (bs "r") 4 ex_tree) ex_base =
+  Some (18%Z, 18, 18).
+Proof.
+  exact (own_v2_only_verify X1 X256 2 HB2 1 4 Hpl4 X256_len ex_opts (bs "r") ex_tree _ ex_fs ex_base ex_base
+           ex_tree_wf (out_v2_class X1 X256 2 4 ex_opts (bs "r") ex_tree) ex_no_collision ex_find_root ex_holds).
+Qed.
+
+Example ex_own_hybrid :
+  recheck_model X1 X256 2 ex_fs (create_assembler X1 X256 2 true ex_opts (bs "r") 4 ex_tree) ex_base =
+  Some (18%Z, 18, 18).
+Proof.
+  exact (own_hybrid_verify X1 X256 2 HB2 1 4 Hpl4 X256_len ex_opts (bs "r") ex_tree _ ex_fs ex_base ex_base
+           ex_tree_wf (out_hybrid_assembler X1 X256 2 4 ex_opts (bs "r") ex_tree) ex_no_collision
+           ex_find_root ex_holds).
+Qed.
+End OwnMetafilesExamples.
+
 Print Assumptions disk_of_holds.
 Print Assumptions feed_matches_own_stream.
 Print Assumptions own_v1_verify.
 Print Assumptions own_v1_plain_verify.
 Print Assumptions own_v2_verify.
+Print Assumptions own_v1_check_paths.
+Print Assumptions own_v1_recorded_digests.
+Print Assumptions own_v2_check_paths.
+Print Assumptions own_v2_only_verify.
+Print Assumptions own_hybrid_verify.
+Print Assumptions holds_find_root.
+Print Assumptions tree_size_pos.
+Print Assumptions aligned_pad_path_collision_refuted.
+Print Assumptions own_v1_aligned_verify.
+Print Assumptions v1_recorded_size_aligned.
